@@ -765,4 +765,19 @@ theorem mergedRowsOf_eq {c : Call} {n : Nat} (hlen : c.rows.length = n + 1)
     rw [h0]
     exact zipRows_of_iv_eq h
 
+/-! ### translation of a whole input by `d` ns (epoch-scale witnesses of Props/C08) -/
+
+def shiftRow (d : Int) (r : Row) : Row := ⟨r.time + d, r.endt + d, r.id⟩
+
+def shiftChunk (d : Int) (c : Chunk) : Chunk :=
+  { c with start := c.start + d, stop := c.stop + d, rows := c.rows.map (shiftRow d),
+           subruns := c.subruns.map (·.map fun r => ⟨r.id, r.start + d, r.stop + d⟩),
+           superrun := c.superrun.map fun r => ⟨r.id, r.start + d, r.stop + d⟩ }
+
+def shiftCall (d : Int) (c : Call) : Call :=
+  ⟨c.start + d, c.stop + d, c.rows.map (·.map (shiftRow d)), c.ranges.map fun r => (r.1 + d, r.2 + d)⟩
+
+/-- a real nanosecond-epoch time: above 2^53, not a multiple of 256 -/
+def epochT0 : Int := 1700000000000000137
+
 end Strax.Align
